@@ -18,13 +18,14 @@ package main
 // ends where the next starts, the last ends at base + the compiler's size of typ), and what was
 // in out before is untouched.
 //@ func sizes
-//@   uses     gcsizes:gcspec, offS_is_gcOff, endS_is_gcEnd
+//@   uses     gcsizes:size_struct, gcsizes:size_underlying, gcsizes:underlying_struct, gcsizes:ranges, offS_is_gcOff, endS_is_gcEnd, offS_ge_endS
 //@   requires base >= 0 && build.Default.GOARCH != "amd64p32" && (typ.NumFields() > 0 || len(out) == 0)
 //@   ensures  [prefix] len(result) >= len(out) && (forall k int :: {result[k]} 0 <= k && k < len(out) ==> result[k] == out[k])
 //@   ensures  [empty]  typ.NumFields() == 0 ==> len(result) == len(out)
 //@   ensures  [start]  typ.NumFields() > 0 ==> len(result) > len(out) && result[len(out)].Start == base
 //@   ensures  [chain]  forall k int :: {result[k]} len(out) <= k && k < len(result) - 1 ==> result[k].End == result[k+1].Start
 //@   ensures  [end]    typ.NumFields() > 0 ==> result[len(result)-1].End == base + gcsizes.gcSize(gcsizes.archWord(), gcsizes.archMax(), typ)
+//@   ensures  [lastsize] typ.NumFields() > 0 ==> ((result[len(result)-1].Size == 0) == (gcsizes.gcSize(gcsizes.archWord(), gcsizes.archMax(), typ) == 0))
 //@   loop 1   invariant [fields] len(fields) == i && (forall j int :: {fields[j]} 0 <= j && j < i ==> fields[j] == typ.Field(j))
 //@   loop 2   invariant [len]    len(offsets) == len(fields)
 //@   loop 2   invariant [shift]  forall j int :: {offsets[j]} 0 <= j && j < len(offsets) ==> offsets[j] == loopentry(offsets)[j] + (j < i ? base : 0)
@@ -37,3 +38,4 @@ package main
 //@   loop 3   invariant [none]   (len(out) == len(old(out)) ==> pos == base) && (q == 0 ==> len(out) == len(old(out)))
 //@   loop 3   invariant [grow]   len(out) >= len(old(out)) + q && len(fields) == typ.NumFields() && len(offsets) == len(fields)
 //@   loop 3   invariant [chain]  forall k int :: {out[k]} len(old(out)) <= k && k < len(out) - 1 ==> out[k].End == out[k+1].Start
+//@   loop 3   invariant [lastsz] q > 0 ==> ((out[len(out)-1].Size == 0) == (gcsizes.gcSize(s.WordSize, s.MaxAlign, fields[q-1].Type()) == 0))
